@@ -1,4 +1,6 @@
 import RichModel.Model.Console
+import RichModel.Model.ConsolePrint
+import RichModel.Gen.CellWidths
 import RichModel.Drv.Proto
 /-
 Driver handlers for property C15 (record / capture / export).
@@ -10,10 +12,18 @@ Request:  c15_hist <TAB> variant <TAB> config <TAB> styles <TAB> ops <TAB> what
             (link: "-" = None, "=<str>" otherwise); style ids are 1-based positions
   ops     : op/op/…
             P:<seg|seg|…>   seg = text;styleid-or-dash;control
-            L:n   C:<str>   B   K:home   S:show   <   >   T:clear:styles
+            L:n   C:<str>   B   K:home   S:show   <   >   E (enter `with console:`)   X (leave it)   T:clear:styles
             H:clear:inline:fg:bg:item,item,…   item = l<str> | c | s | f | b
   what    : all (the four below, tab separated) | file | outs | record | state
 Strings are space-separated decimal code points.
+
+Request:  c15_derive <TAB> flags8 <TAB> width <TAB> nullId <TAB> kind <TAB> args…      (Model/ConsolePrint.lean)
+  flags8 : the eight WVariant flags of property C02 (six Text flags, justifyNeg, rstripChars)
+  kind = print : strs(strlist) sep end style(-|id) overflow(-|f|c|e|i) nowrap(-|0|1) width(-|n) crop(0|1) soft(-|0|1) consoleSoft(0|1)
+  kind = print0: (no arguments)
+  kind = out   : strs(strlist) sep end style(-|id)
+  kind = rule  : characters styleId
+Answer: the appended segments (as `seg|seg|…`), `err:<PyErr>`, or `unmodelled`.
 -/
 namespace RichModel.Drv.C15
 open RichModel RichModel.Proto RichModel.Console
@@ -69,7 +79,7 @@ def envOf (rows : Array StyleRow) : StyleEnv Nat :=
 
 def bit (s : String) (i : Nat) : Bool := (s.toList.getD i '0') == '1'
 
-def decVariant (s : String) : Variant :=
+def decVariant (s : String) : Console.Variant :=
   { recordInRender := bit s 0, mergeCtl := bit s 1, escapeHref := bit s 2, captureMarks := bit s 3 }
 
 def decConfig (s : String) : Config :=
@@ -95,6 +105,8 @@ def decOp (s : String) : Option (Op Nat) :=
   | ["S", b] => some (.showCursor (decBool b))
   | ["<"] => some .beginCapture
   | [">"] => some .endCapture
+  | ["E"] => some .enterBuffer
+  | ["X"] => some .exitBuffer
   | ["T", c, st] => some (.exportText (decBool c) (decBool st))
   | ["H", c, inl, fg, bg, tmpl] =>
     let items := if tmpl.isEmpty then [] else tmpl.splitOn ","
@@ -116,7 +128,61 @@ def encOut : Out → String
   | .exported s => "e" ++ encStr s
   | .assertionError => "A"
 
+def cw : Char → Nat := charWidthT Gen.cellWidths
+
+def decWV? (s : String) : Option Wrap.WVariant :=
+  match s.toList with
+  | [a, b, c, d, e, f, g, h] => some ⟨⟨a == '1', b == '1', c == '1', d == '1', e == '1', f == '1'⟩, g == '1', h == '1'⟩
+  | _ => none
+
+def decOverflow? (s : String) : Option (Option Overflow) :=
+  match s with
+  | "-" => some none
+  | "f" => some (some .fold)
+  | "c" => some (some .crop)
+  | "e" => some (some .ellipsis)
+  | "i" => some (some .ignore)
+  | _ => none
+
+def decOptBool? (s : String) : Option (Option Bool) :=
+  match s with
+  | "-" => some none
+  | "0" => some (some false)
+  | "1" => some (some true)
+  | _ => none
+
+def encDerived (r : Except PyErr (Option (List Seg))) : String :=
+  match r with
+  | .ok (some segs) => "ok:" ++ encLine segs
+  | .ok none => "unmodelled"
+  | .error e => "err:" ++ toString (repr e)
+
 def handlers : List (String × (List String → String)) := [
+  ("c15_derive", fun a => match a with
+    | [flags, w, nullId, "print", strs, sep, e, style, ov, nw, width, crop, soft, csoft] =>
+      (do
+        let wv ← decWV? flags
+        let ov ← decOverflow? ov
+        let nw ← decOptBool? nw
+        let soft ← decOptBool? soft
+        let env : ConsolePrint.Env := { width := decNat w, softWrap := decBool csoft, nullId := decNat nullId, styleId := id }
+        pure (encDerived (ConsolePrint.printSegs wv cw env
+          { strs := decStrList strs, sep := decStr sep, endStr := decStr e, style := decOptNat style, overflow := ov,
+            noWrap := nw, width := decOptNat width, crop := decBool crop, softWrap := soft }))).getD "unmodelled"
+    | [_flags, w, nullId, "print0"] =>
+      let env : ConsolePrint.Env := { width := decNat w, nullId := decNat nullId, styleId := id }
+      encDerived (.ok (some (ConsolePrint.print0Segs cw env)))
+    | [flags, w, nullId, "out", strs, sep, e, style] =>
+      (do
+        let wv ← decWV? flags
+        let env : ConsolePrint.Env := { width := decNat w, nullId := decNat nullId, styleId := id }
+        pure (encDerived (ConsolePrint.outSegs wv cw env (decStrList strs) (decStr sep) (decStr e) (decOptNat style)))).getD "unmodelled"
+    | [flags, w, nullId, "rule", chars, styleId] =>
+      (do
+        let wv ← decWV? flags
+        let env : ConsolePrint.Env := { width := decNat w, nullId := decNat nullId, styleId := fun _ => decNat styleId }
+        pure (encDerived (ConsolePrint.ruleSegs wv cw env (decStr chars)))).getD "unmodelled"
+    | _ => "bad-args"),
   ("c15_hist", fun a => match a with
     | [v, cfg, styles, ops, what] =>
       match decStyles styles, decOps ops with
